@@ -169,16 +169,17 @@ def applySet (d : Doc) (parent : Ticket) (key : String) (val : Val) (ts : Ticket
     | _ => .error .notApplicable
   | none => .error .notApplicable
 
-def applyAdd (d : Doc) (parent prev : Ticket) (val : Val) (ts : Ticket) : Except Err Doc :=
-  match d parent with
-  | some pe =>
-    match pe.body with
-    | .arr nodes moved =>
-      match insertAfter prev ⟨ts, some ts⟩ nodes with
-      | some nodes' => .ok ((d.set ts (newElem parent val)).set parent { pe with body := .arr nodes' moved })
-      | none => .error .childNotFound
-    | _ => .error .notApplicable
-  | none => .error .notApplicable
+/-! ### array-level transitions (pure functions of the array body) -/
+
+structure ArrSt where
+  nodes : List PosNode
+  moved : Ticket → Option Ticket
+
+def hasPos (nodes : List PosNode) (t : Ticket) : Bool := nodes.any (fun n => n.pos = t)
+
+/-- `RGATreeList.InsertAfter` of a new element `ts` -/
+def arrAdd (prev ts : Ticket) (a : ArrSt) : Option ArrSt :=
+  (insertAfter prev ⟨ts, some ts⟩ a.nodes).map (fun ns => { a with nodes := ns })
 
 /-- LWW on `posMovedAt`: the move loses when the element was already moved by a later ticket -/
 def movedLoses (moved : Ticket → Option Ticket) (target ts : Ticket) : Bool :=
@@ -186,24 +187,42 @@ def movedLoses (moved : Ticket → Option Ticket) (target ts : Ticket) : Bool :=
   | some m => !(ts.after m)
   | none => false
 
+/-- `RGATreeList.MoveAfter` -/
+def arrMove (prev target ts : Ticket) (a : ArrSt) : Option ArrSt :=
+  if !(prev = headId || hasPos a.nodes prev) then none
+  else if !(holds a.nodes target) then none
+  else if movedLoses a.moved target ts then
+    if hasPos a.nodes ts then some a
+    else (insertPosAfter prev ⟨ts, none⟩ a.nodes).map (fun ns => { a with nodes := ns })
+  else
+    (insertPosAfter prev ⟨ts, some target⟩ (vacate target a.nodes)).map
+      (fun ns => { nodes := ns, moved := fun t => if t = target then some ts else a.moved t })
+
+/-- the list part of `RGATreeList.Set` / `ArraySet.Execute`: insert next to the target -/
+def arrSet (target ts : Ticket) (a : ArrSt) : Option ArrSt :=
+  if !(holds a.nodes target) then none
+  else (insertAfterNodes target ⟨ts, some ts⟩ a.nodes).map (fun ns => { a with nodes := ns })
+
+def applyAdd (d : Doc) (parent prev : Ticket) (val : Val) (ts : Ticket) : Except Err Doc :=
+  match d parent with
+  | some pe =>
+    match pe.body with
+    | .arr nodes moved =>
+      match arrAdd prev ts ⟨nodes, moved⟩ with
+      | some a => .ok ((d.set ts (newElem parent val)).set parent { pe with body := .arr a.nodes a.moved })
+      | none => .error .childNotFound
+    | _ => .error .notApplicable
+  | none => .error .notApplicable
+
 def applyMove (d : Doc) (parent prev target ts : Ticket) : Except Err Doc :=
   match d parent with
   | some pe =>
     match pe.body with
     | .arr nodes moved =>
-      if !(prev = headId || nodes.any (fun n => n.pos = prev)) then .error .childNotFound
-      else if !(isChildOf d target parent && holds nodes target) then .error .childNotFound
-      else
-        if movedLoses moved target ts then
-          if nodes.any (fun n => n.pos = ts) then .ok d
-          else match insertPosAfter prev ⟨ts, none⟩ nodes with
-            | some nodes' => .ok (d.set parent { pe with body := .arr nodes' moved })
-            | none => .error .childNotFound
-        else
-          match insertPosAfter prev ⟨ts, some target⟩ (vacate target nodes) with
-          | some nodes' =>
-            .ok (d.set parent { pe with body := .arr nodes' (fun t => if t = target then some ts else moved t) })
-          | none => .error .childNotFound
+      if !(isChildOf d target parent) then .error .childNotFound
+      else match arrMove prev target ts ⟨nodes, moved⟩ with
+        | some a => .ok (d.set parent { pe with body := .arr a.nodes a.moved })
+        | none => .error .childNotFound
     | _ => .error .notApplicable
   | none => .error .notApplicable
 
@@ -222,10 +241,10 @@ def applyArraySet (d : Doc) (parent target : Ticket) (val : Val) (ts : Ticket) :
   | some pe =>
     match pe.body with
     | .arr nodes moved =>
-      if !(isChildOf d target parent && holds nodes target) then .error .childNotFound
-      else match insertAfterNodes target ⟨ts, some ts⟩ nodes with
-        | some nodes' =>
-          .ok (markRemoved ((d.set ts (newElem parent val)).set parent { pe with body := .arr nodes' moved }) target ts)
+      if !(isChildOf d target parent) then .error .childNotFound
+      else match arrSet target ts ⟨nodes, moved⟩ with
+        | some a =>
+          .ok (markRemoved ((d.set ts (newElem parent val)).set parent { pe with body := .arr a.nodes a.moved }) target ts)
         | none => .error .childNotFound
     | _ => .error .notApplicable
   | none => .error .notApplicable
@@ -286,6 +305,43 @@ def marshal (d : Doc) : Nat → Ticket → String
           | some c =>
             match d c with
             | some ce => if ce.removed then none else some (marshal d fuel c)
+            | none => none
+          | none => none)
+        "[" ++ joinComma parts ++ "]"
+
+end Yorkie.Crdt
+
+namespace Yorkie.Crdt
+
+/-- `marshal` that additionally refuses to enter a cell twice on one path. On well-formed
+    (acyclic) documents it prints the same text as `marshal`; the drivers use it so that a
+    malformed operation stream (which can tie a cell to itself) cannot make printing explode. -/
+def marshalV (d : Doc) : Nat → List Ticket → Ticket → String
+  | 0, _, _ => "?"
+  | fuel + 1, seen, t =>
+    if seen.contains t then "?" else
+    match d t with
+    | none => "?"
+    | some e =>
+      match e.body with
+      | .prim r => r
+      | .opaque r => r
+      | .counter _ v => toString v
+      | .obj keys member =>
+        let parts := keys.filterMap (fun k =>
+          match member k with
+          | some m =>
+            match d m.child with
+            | some ce => if ce.removed then none else some ("\"" ++ k ++ "\":" ++ marshalV d fuel (t :: seen) m.child)
+            | none => none
+          | none => none)
+        "{" ++ joinComma parts ++ "}"
+      | .arr nodes _ =>
+        let parts := nodes.filterMap (fun n =>
+          match n.elem with
+          | some c =>
+            match d c with
+            | some ce => if ce.removed then none else some (marshalV d fuel (t :: seen) c)
             | none => none
           | none => none)
         "[" ++ joinComma parts ++ "]"
